@@ -503,17 +503,27 @@ def fault_plan(base, tier, rng, kills_only=False):
     counts = {}
     for e in base["all_names"]:
         counts[e] = counts.get(e, 0) + 1
-    # kill on entry of every file syscall of the run (the call itself is not executed); strace counts
-    # `when=` per syscall, so the crash points are enumerated as (syscall, k-th invocation)
+    # (syscall name, k) of the calls that touch the write path inside the work directory; a kill on entry of any
+    # other call (reads, directory walks) leaves the same state as the kill on entry of the next of these
+    write_path = set()
+    for ev in base["events"]:
+        k = sum(1 for x in base["all_names"][:ev["n"]] if x == ev["sys"])
+        write_path.add((ev["sys"], k))
+    every = tier == "thorough"
+    # kill on entry of a file syscall (the call itself is not executed); strace counts `when=` per syscall,
+    # so the crash points are enumerated as (syscall, k-th invocation)
     for sysname in sorted(counts):
         for k in range(1, counts[sysname] + 1):
-            plan.append({"kind": "kill", "syscall": sysname, "when": k})
+            if every or (sysname, k) in write_path:
+                plan.append({"kind": "kill", "syscall": sysname, "when": k})
     if kills_only:
         return plan
     errs = {"openat": ["ENOSPC", "EACCES"], "write": ["ENOSPC", "EIO"], "fsync": ["EIO"], "fchmod": ["EPERM"],
             "close": ["EIO"], "rename": ["EACCES", "ENOSPC"], "unlink": ["EACCES"]}
     for sysname, es in errs.items():
         for k in range(1, counts.get(sysname, 0) + 1):
+            if not every and (sysname, k) not in write_path:
+                continue
             for er in es[:1]:
                 plan.append({"kind": "error", "syscall": sysname, "errno": er, "when": k})
     return plan
@@ -634,12 +644,16 @@ def main():
         else:
             run_fixture(rep, "gen3", gen_fixture(rng, 3, big=True), tier, rng, seen, light=True,
                         extras=[["hardlink", "big.lua", "big.lua.orig"], ["hardlink", "f01.lua", "f01.lua.orig"]])
-    rep.r["rule"] = ("one case = one run of the real `luafmt --write <dir>` on a fresh copy of a fixture directory (hand-written "
-                     "4-file fixture + seeded generated directories with sub-directories and an already-formatted file) with one "
+    rep.r["rule"] = ("one case = one run of the real `luafmt --write <dir> [<symlinked files>]` on a fresh copy of a fixture directory "
+                     "(hand-written fixture with file-system variety: a file with a second hard link, a file reached only through a "
+                     "symlink, a symlinked directory, a read-only file, a file in a read-only directory, CRLF, empty, already "
+                     "formatted; seeded generated directories with sub-directories, hard links and a file >= 8 KiB) with one "
                      "injected fault: SIGKILL on entry of every file syscall of the run (k-th invocation of each syscall name), an errno injected into the "
                      "K-th call of each of openat/write/fsync/fchmod/close/rename/unlink, RLIMIT_FSIZE = L with SIGXFSZ ignored "
                      "(EFBIG after a partial write) or default (killed mid-file); a case is non-trivial when the fault actually fired "
-                     "and the process had already issued a file syscall inside the work directory; distinct by (fixture, fault)")
+                     "and the process had already issued a file syscall inside the work directory; distinct by (fixture, fault). "
+                     "Oracle per run: every pre-existing path incl. the other hard-link name holds complete old or complete new "
+                     "content, symlinks stay symlinks, and a run that was not killed exits non-zero when a file was not rewritten")
     shutil.rmtree(WORK, ignore_errors=True)
     with open(out, "w") as f:
         json.dump(rep.r, f, indent=1, ensure_ascii=False)
